@@ -21,6 +21,16 @@ type SrcView struct {
 	Vacuous   bool
 	Desc      string
 	TBegin    time.Time
+	Shared    bool // an alternative stems from an overlapping caller's exchange with the same responder
+}
+
+func containsStr(l []string, s string) bool {
+	for _, x := range l {
+		if x == s {
+			return true
+		}
+	}
+	return false
 }
 
 // CertView joins plan, deliveries and the library's answer for one certificate.
@@ -103,6 +113,30 @@ func (sc *RevScenario) buildViews(obs *RevObs, co *CallObs) []*CertView {
 				sv.Alts = []string{ClNotContacted}
 			} else {
 				sv.Alts = ocspAlts(w, cp, x)
+				if !x.Rec.Begun {
+					// The statement asks that SOME configured responder returned
+					// the answer: an answer another caller of the same chain
+					// obtained while this validation was running may be shared
+					// (in-flight de-duplication), judged under THIS caller's
+					// signing time. It then counts as this caller's delivery.
+					for rep, ox := range s.X {
+						if rep == co.Rep || ox == nil || !ox.Rec.Begun || !co.Returned {
+							continue
+						}
+						if ox.Rec.TBegin.After(co.TReturn) {
+							continue
+						}
+						if exchangeEnd(ox, obs).Before(co.TStart) {
+							continue
+						}
+						for _, a := range ocspAlts(w, cp, ox) {
+							if a != ClNotContacted && !containsStr(sv.Alts, a) {
+								sv.Alts = append(sv.Alts, a)
+								sv.Shared = true
+							}
+						}
+					}
+				}
 			}
 			v.OCSP = append(v.OCSP, sv)
 		}
@@ -299,4 +333,15 @@ func crlAlts(base, delta *CRLSpec, serial *big.Int, certFreshest, hasCRLSign, ha
 		alts = append(alts, ClNone)
 	}
 	return alts
+}
+
+// exchangeEnd is the instant at which an exchange was over for its caller.
+func exchangeEnd(x *Exchange, obs *RevObs) time.Time {
+	t := x.Rec.TBegin
+	for _, c := range []time.Time{x.Rec.TReturn, x.Rec.TBodyEnd, x.Rec.TClosed} {
+		if c.After(t) {
+			t = c
+		}
+	}
+	return t
 }
